@@ -10,6 +10,7 @@ CONSTANTS
   CanRead = {}
   CanPrune = {}
   CanForget = {"x"}
+  CanRewrite = {}
   CanTag = {"x"}
   Budget <- Budget2
   Variant = "ok"
@@ -20,6 +21,7 @@ INVARIANTS
   IndexSound
   ReaderOK
   TagNeverLoses
+  RewriteNeverLoses
 PROPERTIES
   W1
   W2
